@@ -130,6 +130,10 @@ class C13World(object):
                            'subseed': rng.getrandbits(31), 'rng': rng.choice(['values', 'values', 'rng'])})
             if numbered and bad is None and rng.random() < 0.25:
                 events[-1]['bad_instance'] = rng.choice(['a_{05}', 'a_{-05}', 'a_{1.0}', 'A_{1}', 'a_{+1}', 'a_1'])
+        if rng.random() < 0.25:
+            # sibling inputs of an ordered ListGrader become dependent variables as well
+            events.append({'op': 'sib', 'case': rng.randrange(4), 'subseed': rng.getrandbits(31),
+                           'samples': rng.choice([1, 2, 4]), 'order': rng.random() < 0.5})
         uconst = {}
         if rng.random() < 0.35:
             uconst['c0'] = rng.choice([2.5, -1.25, 10])
@@ -395,10 +399,68 @@ class Run(object):
                 self.bump(self.probes, 'dependency chain of 3+ resolved')
         return False
 
+    def do_sib(self, i, ev):
+        """
+        Sibling variables: in an ordered list of formula inputs, an answer may refer to the other
+        inputs as sibling_k; each referenced input is sampled as a dependent variable, i.e. its
+        value must be that input's formula evaluated on the same sample.
+        """
+        m = self.lib.mitx
+        SimSampler = seams.sim_classes()['SimSampler']
+        n = ev['samples']
+        cases = [
+            # (answers, inputs, {sibling name: python function of x}, expected all-correct)
+            (['probe(sibling_2, x) + sibling_2 + 1', 'x^2'], ['x^2 + 1', 'x^2'], {'sibling_2': lambda x: x * x}, True),
+            (['x', 'probe(sibling_1, x) + 2*sibling_1'], ['x', '2*x'], {'sibling_1': lambda x: x}, True),
+            (['probe(sibling_2, sibling_3, x) + sibling_2*sibling_3', 'x+1', 'x-1'], ['x^2-1', 'x+1', 'x-1'],
+             {'sibling_2': lambda x: x + 1, 'sibling_3': lambda x: x - 1}, True),
+            (['probe(sibling_3, x) + sibling_3', 'probe2(sibling_1, x)*0 + x', 'x^3'], ['x^3', 'x', 'x^3'],
+             {'sibling_3': lambda x: x ** 3}, True),
+        ]
+        answers, inputs, sibs, want = cases[ev['case']]
+        self.rec.clear()
+        smp = SimSampler(name='smp.x', values=[round(1.3 + 0.41 * t, 6) for t in range(16)])
+        smp.env = self.env
+        sub = m.FormulaGrader(variables=['x'], sample_from={'x': smp}, samples=n,
+                              user_functions={'probe': self.make_probe('probe', len(sibs) + 1),
+                                              'probe2': self.make_probe('probe2', 2)})
+        g = m.ListGrader(answers=answers, subgraders=sub, ordered=True)
+        self.env.begin(ev)
+        seams.seed_lib(ev['subseed'])
+        o = outcome(g, None, list(inputs))
+        self.env.end()
+        self.bump(self.refs, 'history-oracle')
+        if o['k'] != 'ret':
+            self.violate('complete', i, 'sibling list %r with inputs %r raised %s' % (answers, inputs, short(o)))
+            return o
+        oks = [e['ok'] for e in o['v']['input_list']]
+        if want and not all(x is True for x in oks):
+            self.violate('verdict', i, 'sibling list %r with matching inputs %r graded %s' % (answers, inputs, oks))
+        names = sorted(sibs)
+        for k, row in enumerate(self.rec.get('probe', [])):
+            vals = [self.num(v) for v in row]
+            x = vals[-1]
+            for name, got in zip(names, vals[:-1]):
+                exp = sibs[name](x)
+                if abs(got - exp) > 1e-9 * (1 + abs(exp)):
+                    self.violate('consistent', i, 'sample %d: %s=%r but that input evaluates to %r at x=%r (answers %r inputs %r)'
+                                 % (k, name, got, exp, x, answers, inputs))
+                    return o
+        if not self.rec.get('probe'):
+            self.violate('complete', i, 'sibling answer was never evaluated')
+        else:
+            self.bump(self.probes, 'sibling variables checked')
+        return o
+
     def run(self):
         log, sig = [], []
         first = None
         for i, ev in enumerate(self.j['events']):
+            if ev['op'] == 'sib':
+                o = self.do_sib(i, ev)
+                log.append([i, core.jdigest(o)])
+                sig.append(['sib', ev['case'], o.get('cls', 'ret')])
+                continue
             o = self.do_grade(i, ev)
             log.append([i, core.jdigest(o)])
             key = 'ret' if o['k'] == 'ret' else o['cls']
@@ -416,7 +478,7 @@ class Run(object):
         shape = [len(j['ind']), len(j['numbered']), j['vector'], [(d['form'], d['ops']) for d in j['deps']], j['bad']]
         sample = {'independent': j['ind'], 'numbered': j['numbered'],
                   'dependents': [[d['name'], self.dep_formula(d)] for d in j['deps']], 'variant': j['bad'] or 'dag',
-                  'samples': j['samples'], 'orders': [e['order'] for e in j['events'][:2]]}
+                  'samples': j['samples'], 'orders': [e.get('order') for e in j['events'][:2]]}
         return {'violations': self.violations, 'fired': self.stats, 'probes': self.probes, 'refs': self.refs,
                 'events': len(j['events']), 'sim_time': 0, 'sig': core.jdigest([shape, sig]),
                 'nontrivial': len(j['deps']) >= 1 or bool(j['numbered']),
